@@ -5,7 +5,7 @@
      G2  the record invariant [Inv] of RecordInv.v along Canonicalize: what holds, and what does not.
      G3  the removal switches do what they say. *)
 From Verif Require Import Lib.Base Lib.Utf8 Lib.GoStr Model.Cfg Gen.Tables Gen.Options Model.Sets Model.Percent
-  Model.Url Model.Host Model.Machine Model.Api Model.Canon.
+  Model.Url Model.Host Model.Machine Model.Api Model.Canon Model.Obs Model.Preds.
 From Verif Require Import Proofs.NoPanic Proofs.Total Proofs.CodecProofs Proofs.RecordInv Proofs.MachineInv.
 From Coq Require Import Lia ZifyBool ZifyN ZifyNat.
 
@@ -345,7 +345,7 @@ Proof.
             r = run idna_raw c (decode (u_input u1)) None (Some ov) (fuel_of (length (decode (u_input u1))))
                     (mk ov (-1)%Z false [] false false false u1) ->
             after r = Some u' -> pr u' = pr u).
-  { intros u1 r H1 -> Hr. pose proof (Hrun (decode (u_input u1)) (fuel_of (length (decode (u_input u1)))) u1) as HK.
+  { clear H. intros u1 r H1 -> Hr. pose proof (Hrun (decode (u_input u1)) (fuel_of (length (decode (u_input u1)))) u1) as HK.
     destruct (run _ _ _ _ _ _ _) as [u2|u2 e2|u2| |]; cbn [after rkeep] in *; try discriminate Hr;
       injection Hr as <-; congruence. }
   destruct changed.
@@ -355,3 +355,1235 @@ Proof.
     + eapply K; [|reflexivity|exact H]. rewrite Hi, He. apply Hi.
   - eapply K; [|reflexivity|exact H]. apply Hi.
 Qed.
+
+(* the runs behind SetHostname, SetPathname, SetSearch and SetHash *)
+Definition S_host (st : state) : bool := match st with HostnameSt | FileHost => true | _ => false end.
+Definition S_path (st : state) : bool :=
+  match st with PathStart | PathSt | QuerySt | FragmentSt => true | _ => false end.
+Definition S_query (st : state) : bool := match st with QuerySt => true | _ => false end.
+Definition S_frag (st : state) : bool := match st with FragmentSt => true | _ => false end.
+
+Section KeepSetters.
+  Variable idna_raw : str -> str * bool.
+  Variable c : cfg.
+  Variable T : Type.
+  Variable pr : url -> T.
+  Hypothesis Hv : forall u v, pr (set_verrs u v) = pr u.
+  Hypothesis Hi : forall u v, pr (set_input u v) = pr u.
+
+  Lemma SetHostname_keep : (forall u q, pr (set_host u q) = pr u) ->
+    forall u s u', SetHostname idna_raw c u s = Some u' -> pr u' = pr u.
+  Proof.
+    intros Hh u s u' H. unfold SetHostname in H. destruct (u_opaque u); [injection H as <-; reflexivity|].
+    revert H. apply (keep_BP idna_raw c HostnameSt T pr Hv Hi). intros inp fuel u1.
+    apply (keep_run idna_raw c inp HostnameSt T pr S_host); [|reflexivity].
+    intros m HS. destruct (m_state m) eqn:E; try discriminate HS.
+    - apply keep_HostnameSt; auto.
+    - apply keep_FileHost; auto.
+  Qed.
+
+  Lemma SetPathname_keep : (forall u q o, pr (set_path u q o) = pr u) ->
+    (forall u q, pr (set_query u q) = pr u) -> (forall u q, pr (set_fragment u q) = pr u) ->
+    forall u s u', SetPathname idna_raw c u s = Some u' -> pr u' = pr u.
+  Proof.
+    intros Hp Hq Hf u s u' H. unfold SetPathname in H. destruct (u_opaque u); [injection H as <-; reflexivity|].
+    rewrite <- (Hp u [] false). revert H. apply (keep_BP idna_raw c PathStart T pr Hv Hi). intros inp fuel u1.
+    apply (keep_run idna_raw c inp PathStart T pr S_path); [|reflexivity].
+    intros m HS. destruct (m_state m) eqn:E; try discriminate HS.
+    - apply keep_PathSt; auto.
+    - apply keep_PathStart; auto.
+    - apply keep_QuerySt; auto.
+    - apply keep_FragmentSt; auto.
+  Qed.
+
+  Lemma SetSearch_keep : (forall u q, pr (set_query u q) = pr u) -> (forall u l, pr (set_sp u l) = pr u) ->
+    forall u s u', s <> [] -> SetSearch idna_raw c u s = Some u' -> pr u' = pr u.
+  Proof.
+    intros Hq Hsp u s u' Hs H. unfold SetSearch in H. destruct s as [|x s]; [contradiction|].
+    set (u0 := match u_query u with None => set_query u (Some []) | Some _ => u end) in H.
+    assert (H0 : pr u0 = pr u) by (unfold u0; destruct (u_query u); [reflexivity|apply Hq]).
+    destruct (after (BasicParser idna_raw c (trim_prefix1 63 (x :: s)) None (Some u0) (Some QuerySt))) as [u2|] eqn:E;
+      [|discriminate H].
+    destruct (u_query u2); [|discriminate H]. injection H as <-. rewrite Hsp, <- H0.
+    revert E. apply (keep_BP idna_raw c QuerySt T pr Hv Hi). intros inp fuel u1.
+    apply (keep_run idna_raw c inp QuerySt T pr S_query); [|reflexivity].
+    intros m HS. destruct (m_state m) eqn:E; try discriminate HS. apply keep_QuerySt; auto.
+  Qed.
+
+  Lemma SetHash_keep : (forall u q, pr (set_fragment u q) = pr u) ->
+    forall u s u', s <> [] -> SetHash idna_raw c u s = Some u' -> pr u' = pr u.
+  Proof.
+    intros Hf u s u' Hs H. unfold SetHash in H. destruct s as [|x s]; [contradiction|].
+    rewrite <- (Hf u (Some [])). revert H. apply (keep_BP idna_raw c FragmentSt T pr Hv Hi). intros inp fuel u1.
+    apply (keep_run idna_raw c inp FragmentSt T pr S_frag); [|reflexivity].
+    intros m HS. destruct (m_state m) eqn:E; try discriminate HS. apply keep_FragmentSt; auto.
+  Qed.
+End KeepSetters.
+
+(* ================================================================== *)
+(* Part 2.B  the fragment state does not look at the query              *)
+(* ================================================================== *)
+
+Definition mq (q : option str) (m : mstate) : mstate :=
+  mk (m_state m) (m_ptr m) (m_eof m) (m_buf m) (m_at m) (m_br m) (m_pw m) (set_query (m_url m) q).
+Definition oq (q : option str) (o : outcome) : outcome :=
+  match o with
+  | Cont m => Cont (mq q m)
+  | RetUrl u => RetUrl (set_query u q)
+  | RetErr u e => RetErr (set_query u q) e
+  | RetNilNil u => RetNilNil (set_query u q)
+  | Panic => Panic
+  end.
+
+Section FragQ.
+  Variable idna_raw : str -> str * bool.
+  Variable c : cfg.
+  Variable q : option str.
+
+  Definition rq (r : result) : result :=
+    match r with
+    | RUrl u => RUrl (set_query u q)
+    | RErr u e => RErr (set_query u q) e
+    | RNilNil u => RNilNil (set_query u q)
+    | RPanic => RPanic
+    | ROutOfFuel => ROutOfFuel
+    end.
+
+  Lemma mherr_q : forall u t f k, (forall u1, k (set_query u1 q) = oq q (k u1)) ->
+    mherr c (set_query u q) t f k = oq q (mherr c u t f k).
+  Proof.
+    intros u t f k Hk. unfold mherr, handleError. fields.
+    destruct (c_report c); destruct (f || c_fail c); cbn [oq]; try reflexivity; rewrite <- Hk; reflexivity.
+  Qed.
+
+  Lemma step_F_q : forall inp m, m_state m = FragmentSt ->
+    step idna_raw c inp None (Some FragmentSt) (mq q m) = oq q (step idna_raw c inp None (Some FragmentSt) m).
+  Proof.
+    intros inp m Hst. destruct m as [st p e buf aF brF pwF u]. cbn [m_state] in Hst. subst st.
+    unfold mq. cbn [m_state m_ptr m_eof m_buf m_at m_br m_pw m_url mk].
+    cbv beta iota zeta delta [step mk m_state m_ptr m_eof m_buf m_at m_br m_pw m_url overridden is_some].
+    fields.
+    destruct (negb (if (n_inp inp <=? p + 1)%Z then true else e)); [|reflexivity].
+    destruct (negb (isURLCodePoint (if (n_inp inp <=? p + 1)%Z then rune_error else cp_at inp (p + 1)))
+              && negb ((if (n_inp inp <=? p + 1)%Z then rune_error else cp_at inp (p + 1)) =? 37)).
+    - apply mherr_q. intros u1. fields.
+      destruct (invalid_pct (rest_from inp (p + 1))); [|reflexivity].
+      apply mherr_q. intros u2. reflexivity.
+    - cbv beta. destruct (invalid_pct (rest_from inp (p + 1))); [|reflexivity].
+      apply mherr_q. intros u2. reflexivity.
+  Qed.
+
+  Lemma run_F_q : forall inp fuel m, m_state m = FragmentSt ->
+    run idna_raw c inp None (Some FragmentSt) fuel (mq q m) = rq (run idna_raw c inp None (Some FragmentSt) fuel m).
+  Proof.
+    intros inp. induction fuel as [|f IH]; intros m Hst; [reflexivity|].
+    cbn [run]. rewrite (step_F_q inp m Hst).
+    pose proof (keep_FragmentSt idna_raw c inp FragmentSt unit (fun _ => tt) (fun _ _ => eq_refl) S_frag eq_refl
+                  (fun _ _ => eq_refl) m Hst) as HK.
+    destruct (step idna_raw c inp None (Some FragmentSt) m) as [m'|u'|u' e'|u'|]; cbn [oq rq okp] in *; try reflexivity.
+    destruct HK as [_ HS]. change (m_eof (mq q m')) with (m_eof m'). destruct (m_eof m'); [reflexivity|].
+    apply IH. destruct (m_state m'); try discriminate HS. reflexivity.
+  Qed.
+
+  Lemma BP_F_q : forall s u,
+    BasicParser idna_raw c s None (Some (set_query u q)) (Some FragmentSt) =
+    rq (BasicParser idna_raw c s None (Some u) (Some FragmentSt)).
+  Proof.
+    intros s u. unfold BasicParser. cbn [option_map]. fields.
+    destruct (remove_tabnl_sv (c_acceptInvalid c) s) as [i changed]. destruct changed.
+    - unfold handleError. fields. destruct (c_report c); destruct (false || c_fail c); cbn [rq]; try reflexivity.
+      + match goal with |- _ = rq (run _ _ _ _ _ _ (mk _ _ _ _ _ _ _ ?Y)) =>
+          exact (run_F_q _ _ (mk FragmentSt (-1)%Z false [] false false false Y) eq_refl) end.
+      + match goal with |- _ = rq (run _ _ _ _ _ _ (mk _ _ _ _ _ _ _ ?Y)) =>
+          exact (run_F_q _ _ (mk FragmentSt (-1)%Z false [] false false false Y) eq_refl) end.
+    - match goal with |- _ = rq (run _ _ _ _ _ _ (mk _ _ _ _ _ _ _ ?Y)) =>
+          exact (run_F_q _ _ (mk FragmentSt (-1)%Z false [] false false false Y) eq_refl) end.
+  Qed.
+
+  (* SetHash commutes with an assignment to the query (the argument is not empty: the clearing
+     branch looks at whether there is a query) *)
+  Lemma SetHash_q : forall u s u', s <> [] -> SetHash idna_raw c u s = Some u' ->
+    SetHash idna_raw c (set_query u q) s = Some (set_query u' q).
+  Proof.
+    intros u s u' Hs H. unfold SetHash in *. destruct s as [|x s]; [contradiction|].
+    change (set_fragment (set_query u q) (Some [])) with (set_query (set_fragment u (Some [])) q).
+    rewrite BP_F_q. destruct (BasicParser idna_raw c _ None (Some (set_fragment u (Some []))) (Some FragmentSt));
+      cbn [rq after] in *; try discriminate H; injection H as <-; reflexivity.
+  Qed.
+End FragQ.
+
+(* ================================================================== *)
+(* Part 2.C  the pipeline, for any three predicates                     *)
+(* ================================================================== *)
+
+Lemma bind_Some : forall (A B : Type) (o : option A) (f : A -> option B) y,
+  bind o f = Some y -> exists x, o = Some x /\ f x = Some y.
+Proof. intros A B [x|] f y H; [exists x; split; [reflexivity|exact H]|discriminate H]. Qed.
+
+(* Canonicalize = the repeated-decoding block followed by the removals and the sort *)
+Section Blocks.
+  Variable idna_raw : str -> str * bool.
+  Variable p : profile.
+  Notation c := (p_cfg p).
+
+  Definition rep_block (u : url) : option url :=
+    if p_repeated p then
+      bind (if negb (is_nil (Hostname u)) && negb (IsIPv6 u)
+            then bind (decodeEncode (Hostname u) pes_HostDecode) (SetHostname idna_raw c u) else Some u) (fun u =>
+      bind (Pathname u) (fun pn =>
+      bind (if negb (is_nil pn)
+            then bind (decodeEncode pn pes_LaxPath) (SetPathname idna_raw c u) else Some u) (fun u =>
+      bind (if negb (is_nil (Search u)) then
+              bind (reencode_params p u) (fun u =>
+                if negb (is_nil (Search u))
+                then bind (SetSearch idna_raw c u (Search u)) (reencode_params p)
+                else Some u)
+            else Some u) (fun u =>
+      if negb (is_nil (Hash u))
+      then bind (decodeEncode (trim_prefix1 35 (Hash u)) pes_Host) (SetHash idna_raw c u) else Some u))))
+    else Some u.
+
+  Definition sort_block (u : url) : url :=
+    match p_sortQuery p with
+    | NoSort => u
+    | SortKeys => sp_update c (fst (ensure_sp c u)) (sp_sort (snd (ensure_sp c u)))
+    | SortParameter => sp_update c (fst (ensure_sp c u)) (sp_sort_abs (snd (ensure_sp c u)))
+    end.
+
+  Definition tail_block (u : url) : option url :=
+    bind (if p_removePort p then SetPort idna_raw c u [] else Some u) (fun u =>
+    bind (if p_removeUserInfo p then bind (SetUsername c u []) (fun u => SetPassword c u []) else Some u) (fun u =>
+    bind (if p_removeFragment p then SetHash idna_raw c u [] else Some u) (fun u => Some (sort_block u)))).
+
+  Lemma Canonicalize_blocks : forall u, Canonicalize idna_raw p u = bind (rep_block u) tail_block.
+  Proof.
+    intros u. unfold Canonicalize, rep_block, tail_block, sort_block.
+    match goal with |- bind ?X _ = bind ?Y _ => change Y with X; destruct X as [u1|]; [|reflexivity] end.
+    cbn [bind].
+    destruct (if p_removePort p then SetPort idna_raw c u1 [] else Some u1) as [u2|]; [|reflexivity]. cbn [bind].
+    destruct (if p_removeUserInfo p then bind (SetUsername c u2 []) (fun u0 => SetPassword c u0 []) else Some u2) as [u3|];
+      [|reflexivity]. cbn [bind].
+    destruct (if p_removeFragment p then SetHash idna_raw c u3 [] else Some u3) as [u4|]; [|reflexivity]. cbn [bind].
+    destruct (p_sortQuery p); [reflexivity| |]; destruct (ensure_sp c u4); reflexivity.
+  Qed.
+
+  Variables P0 P1 P2 : url -> Prop.
+  Hypothesis A_host : forall u s u', P0 u -> SetHostname idna_raw c u s = Some u' -> P0 u'.
+  Hypothesis A_path : forall u s u', P0 u -> SetPathname idna_raw c u s = Some u' -> P0 u'.
+  Hypothesis A_02 : forall u, P0 u -> P2 u.
+  Hypothesis A_21 : forall u, P2 u -> P1 u.
+  (* the write-through of the parameter list happens only under repeated decoding or sorting *)
+  Hypothesis A_reenc : forall u l, p_repeated p = true \/ p_sortQuery p <> NoSort ->
+    P1 u -> P2 (sp_update c (fst (ensure_sp c u)) l).
+  Hypothesis A_search : forall u s u', s <> [] -> P1 u -> SetSearch idna_raw c u s = Some u' -> P1 u'.
+  Hypothesis A_hash : forall u s u', P2 u -> SetHash idna_raw c u s = Some u' -> P2 u'.
+  Hypothesis A_port : forall u u', P2 u -> SetPort idna_raw c u [] = Some u' -> P2 u'.
+  Hypothesis A_user : forall u s u', P2 u -> SetUsername c u s = Some u' -> P2 u'.
+  Hypothesis A_pass : forall u s u', P2 u -> SetPassword c u s = Some u' -> P2 u'.
+
+  Lemma rep_block_P : forall u u', P0 u -> rep_block u = Some u' -> P2 u'.
+  Proof.
+    intros u u' HP H. unfold rep_block in H. destruct (p_repeated p) eqn:ER; [|injection H as <-; apply A_02; exact HP].
+    assert (HR : true = true \/ p_sortQuery p <> NoSort) by (left; reflexivity).
+    apply bind_Some in H. destruct H as (u1 & E1 & H).
+    assert (HP1 : P0 u1).
+    { destruct (negb (is_nil (Hostname u)) && negb (IsIPv6 u)); [|injection E1 as <-; exact HP].
+      rewrite decodeEncode_de in E1. cbn [bind] in E1. apply (A_host _ _ _ HP E1). }
+    clear u HP E1.
+    apply bind_Some in H. destruct H as (pn & _ & H).
+    apply bind_Some in H. destruct H as (u2 & E2 & H).
+    assert (HP2 : P0 u2).
+    { destruct (negb (is_nil pn)); [|injection E2 as <-; exact HP1].
+      rewrite decodeEncode_de in E2. cbn [bind] in E2. apply (A_path _ _ _ HP1 E2). }
+    clear u1 HP1 E2 pn.
+    apply bind_Some in H. destruct H as (u3 & E3 & H).
+    assert (HP3 : P2 u3).
+    { destruct (negb (is_nil (Search u2))); [|injection E3 as <-; apply A_02; exact HP2].
+      apply bind_Some in E3. destruct E3 as (u4 & E4 & E3).
+      assert (HP4 : P2 u4).
+      { rewrite reencode_params_eq in E4. injection E4 as <-. apply A_reenc; [exact HR|]. apply A_21. apply A_02. exact HP2. }
+      destruct (negb (is_nil (Search u4))) eqn:ES; [|injection E3 as <-; exact HP4].
+      apply bind_Some in E3. destruct E3 as (u5 & E5 & E3).
+      assert (HP5 : P1 u5).
+      { apply (A_search u4 (Search u4) u5); [|apply A_21; exact HP4|exact E5].
+        intro N. rewrite N in ES. discriminate ES. }
+      rewrite reencode_params_eq in E3. injection E3 as <-. apply A_reenc; [exact HR|]. exact HP5. }
+    clear u2 HP2 E3.
+    destruct (negb (is_nil (Hash u3))); [|injection H as <-; exact HP3].
+    rewrite decodeEncode_de in H. cbn [bind] in H. apply (A_hash _ _ _ HP3 H).
+  Qed.
+
+  Lemma sort_block_P : forall u, P2 u -> P2 (sort_block u).
+  Proof.
+    intros u HP. unfold sort_block. destruct (p_sortQuery p) eqn:ES; [exact HP| |];
+      (apply A_reenc; [right; first [rewrite ES; discriminate|discriminate]|apply A_21; exact HP]).
+  Qed.
+
+  Lemma tail_block_P : forall u u', P2 u -> tail_block u = Some u' -> P2 u'.
+  Proof.
+    intros u u' HP H. unfold tail_block in H.
+    apply bind_Some in H. destruct H as (u1 & E1 & H).
+    assert (HP1 : P2 u1).
+    { destruct (p_removePort p); [apply (A_port _ _ HP E1)|injection E1 as <-; exact HP]. }
+    clear u HP E1.
+    apply bind_Some in H. destruct H as (u2 & E2 & H).
+    assert (HP2 : P2 u2).
+    { destruct (p_removeUserInfo p); [|injection E2 as <-; exact HP1].
+      apply bind_Some in E2. destruct E2 as (u3 & E3 & E2).
+      apply (A_pass _ _ _ (A_user _ _ _ HP1 E3) E2). }
+    clear u1 HP1 E2.
+    apply bind_Some in H. destruct H as (u3 & E3 & H).
+    assert (HP3 : P2 u3).
+    { destruct (p_removeFragment p); [apply (A_hash _ _ _ HP2 E3)|injection E3 as <-; exact HP2]. }
+    injection H as <-. apply sort_block_P. exact HP3.
+  Qed.
+
+  Theorem Canonicalize_P : forall u u', P0 u -> Canonicalize idna_raw p u = Some u' -> P2 u'.
+  Proof.
+    intros u u' HP H. rewrite Canonicalize_blocks in H. apply bind_Some in H. destruct H as (u1 & E1 & H).
+    apply (tail_block_P u1 u' (rep_block_P u u1 HP E1) H).
+  Qed.
+End Blocks.
+
+(* ================================================================== *)
+(* Part 2.D  the scheme is kept (every configuration)                   *)
+(* ================================================================== *)
+
+Lemma ensure_sp_scheme : forall c u, u_scheme (fst (ensure_sp c u)) = u_scheme u.
+Proof. intros c u. unfold ensure_sp. destruct (u_sp u); reflexivity. Qed.
+
+Lemma sp_update_scheme : forall c u l, u_scheme (sp_update c u l) = u_scheme u.
+Proof.
+  intros c u l. unfold sp_update.
+  match goal with |- u_scheme (if ?b then _ else _) = _ => destruct b end; reflexivity.
+Qed.
+
+Lemma strip_opaque_scheme : forall u u', strip_opaque u = Some u' -> u_scheme u' = u_scheme u.
+Proof.
+  intros u u' H. unfold strip_opaque in H. destruct (u_opaque u); [|injection H as <-; reflexivity].
+  destruct (u_path u); [discriminate H|]. injection H as <-. reflexivity.
+Qed.
+
+Lemma SetHash_scheme : forall idna_raw c u s u', SetHash idna_raw c u s = Some u' -> u_scheme u' = u_scheme u.
+Proof.
+  intros idna_raw c u s u' H. destruct s as [|x s].
+  - unfold SetHash in H. destruct (negb (is_some (u_query (set_fragment u None)))).
+    + apply strip_opaque_scheme in H. exact H.
+    + injection H as <-. reflexivity.
+  - apply (SetHash_keep idna_raw c str u_scheme) in H; try reflexivity; try exact H. discriminate.
+Qed.
+
+Theorem Canonicalize_scheme : forall idna_raw p u u',
+  Canonicalize idna_raw p u = Some u' -> u_scheme u' = u_scheme u.
+Proof.
+  intros idna_raw p u u' H.
+  apply (Canonicalize_P idna_raw p (fun x => u_scheme x = u_scheme u) (fun x => u_scheme x = u_scheme u)
+           (fun x => u_scheme x = u_scheme u)) with (u := u); try exact H; try reflexivity; try (intros; assumption).
+  - intros v s v' Hv E. rewrite <- Hv. apply (SetHostname_keep idna_raw (p_cfg p) str u_scheme) in E; try reflexivity. exact E.
+  - intros v s v' Hv E. rewrite <- Hv. apply (SetPathname_keep idna_raw (p_cfg p) str u_scheme) in E; try reflexivity. exact E.
+  - intros v l _ Hv. rewrite sp_update_scheme, ensure_sp_scheme. exact Hv.
+  - intros v s v' Hs Hv E. rewrite <- Hv. apply (SetSearch_keep idna_raw (p_cfg p) str u_scheme) in E; try reflexivity; assumption.
+  - intros v s v' Hv E. rewrite <- Hv. apply (SetHash_scheme _ _ _ _ _ E).
+  - intros v v' Hv E. rewrite <- Hv. unfold SetPort in E. destruct (no_host_or_file v); injection E as <-; reflexivity.
+  - intros v s v' Hv E. rewrite <- Hv. unfold SetUsername in E. destruct (no_host_or_file v); injection E as <-; reflexivity.
+  - intros v s v' Hv E. rewrite <- Hv. unfold SetPassword in E. destruct (no_host_or_file v); injection E as <-; reflexivity.
+Qed.
+Print Assumptions Canonicalize_scheme.
+
+(* ================================================================== *)
+(* Part 2.E (G2)  the record invariant along Canonicalize               *)
+(* ================================================================== *)
+
+(* SearchParams.update serializes with the ordinary query set, whatever the scheme (MachineInv.
+   sp_update_Inv_refuted), and both the sort and the re-encoding of the parameters end with it.
+   What survives of [Inv] is [InvW]: every clause except the one on the query, and for the query
+   the same clause with the ordinary query set in place of the special-query set. *)
+Definition InvNQ (c : cfg) (u : url) : Prop := Inv c (set_query u None).
+Definition Qweak (c : cfg) (u : url) : Prop :=
+  forall q, u_query u = Some q -> none_in (c_querySet c) q = true \/ none_in (qset c u) q = true.
+Definition InvW (c : cfg) (u : url) : Prop := InvNQ c u /\ Qweak c u.
+
+(* the special-query set asks for nothing the ordinary query set does not ask for *)
+Definition sq_sub (c : cfg) : Prop :=
+  forall r, RuneShouldBeEncoded (c_querySet c) r = false -> RuneShouldBeEncoded (c_squerySet c) r = false.
+
+Definition nqf (u : url) :=
+  (u_scheme u, u_username u, u_password u, u_host u, u_port u, u_decodedPort u, u_path u, u_opaque u, u_fragment u).
+Definition sqf (u : url) := (u_scheme u, u_query u).
+
+Lemma InvNQ_ext : forall c u u', nqf u = nqf u' -> InvNQ c u -> InvNQ c u'.
+Proof.
+  intros c u u' E. unfold InvNQ. apply Inv_ext. unfold nqf in E.
+  injection E as E1 E2 E3 E4 E5 E6 E7 E8 E9. unfold same_fields. fields. repeat split; assumption.
+Qed.
+
+Lemma Qweak_ext : forall c u u', sqf u = sqf u' -> Qweak c u -> Qweak c u'.
+Proof.
+  intros c u u' E H. unfold sqf in E. injection E as E1 E2. unfold Qweak, qset, IsSpecialScheme in *.
+  rewrite <- E1, <- E2. exact H.
+Qed.
+
+Lemma Inv_InvW : forall c u, Inv c u -> InvW c u.
+Proof.
+  intros c u H. split; [apply Inv_set_query_none; exact H|].
+  intros q E. right. apply (I_query _ _ H q E).
+Qed.
+
+(* back from InvW to Inv: only the query clause is missing *)
+Lemma InvNQ_Inv : forall c u, InvNQ c u -> (forall q, u_query u = Some q -> none_in (qset c u) q = true) -> Inv c u.
+Proof.
+  intros c u [H1 H2 H3 H4 H5 H6 H7 H8 H9 H10 H11 H12] Hq.
+  constructor; [exact H1|exact H2|exact H3|exact H4|exact H5|exact H6|exact H7|exact H8|exact H9|exact Hq|exact H11|exact H12].
+Qed.
+
+Lemma none_in_mono : forall t1 t2 s,
+  (forall r, RuneShouldBeEncoded t1 r = false -> RuneShouldBeEncoded t2 r = false) ->
+  none_in t1 s = true -> none_in t2 s = true.
+Proof.
+  intros t1 t2 s Hm. unfold none_in. apply forallb_impl. intros x Hx.
+  apply negb_true_iff in Hx. rewrite (Hm x Hx). reflexivity.
+Qed.
+
+Theorem InvW_Inv : forall c u, InvW c u -> IsSpecialScheme c u = false \/ sq_sub c -> Inv c u.
+Proof.
+  intros c u [H1 H2] Hs. apply InvNQ_Inv; [exact H1|]. intros q E.
+  destruct (H2 q E) as [H|H]; [|exact H]. unfold qset. destruct (IsSpecialScheme c u) eqn:ES; [|exact H].
+  destruct Hs as [Hs|Hs]; [discriminate Hs|]. apply (none_in_mono _ _ _ Hs H).
+Qed.
+
+(* ----- the simple steps ----- *)
+
+Lemma ensure_sp_nqf : forall c u, nqf (fst (ensure_sp c u)) = nqf u.
+Proof. intros c u. unfold ensure_sp. destruct (u_sp u); reflexivity. Qed.
+
+Lemma sp_update_nqf : forall c u l, nqf (sp_update c u l) = nqf u.
+Proof.
+  intros c u l. unfold sp_update.
+  match goal with |- nqf (if ?b then _ else _) = _ => destruct b end; reflexivity.
+Qed.
+
+Lemma sp_update_Qweak : forall c u l, sp_chars_ok (c_querySet c) = true -> Qweak c (sp_update c u l).
+Proof.
+  intros c u l Hc q E. unfold sp_update in E.
+  destruct ((is_nil (sp_string c l) && is_some (u_query (set_sp u (Some l)))) || negb (is_nil (sp_string c l))) eqn:EC.
+  - fields_in E. injection E as <-. left. apply sp_string_none_in. exact Hc.
+  - fields_in E. fields_in EC. rewrite E in EC. cbn [is_some] in EC.
+    destruct (is_nil (sp_string c l)); discriminate EC.
+Qed.
+
+Lemma strip_opaque_q : forall u u' q, strip_opaque u = Some u' ->
+  strip_opaque (set_query u q) = Some (set_query u' q) /\ sqf u' = sqf u.
+Proof.
+  intros u u' q H. unfold strip_opaque in *. fields. destruct (u_opaque u); [|injection H as <-; split; reflexivity].
+  destruct (u_path u); [discriminate H|]. injection H as <-. split; reflexivity.
+Qed.
+
+Lemma SetPort_empty_q : forall idna_raw c u u' q, SetPort idna_raw c u [] = Some u' ->
+  SetPort idna_raw c (set_query u q) [] = Some (set_query u' q) /\ sqf u' = sqf u.
+Proof.
+  intros idna_raw c u u' q H. unfold SetPort, no_host_or_file in *. fields.
+  destruct (match u_host u with Some h => is_nil h | None => true end || str_eqb (u_scheme u) s_file);
+    injection H as <-; split; reflexivity.
+Qed.
+
+Lemma SetUsername_q : forall c u s u' q, SetUsername c u s = Some u' ->
+  SetUsername c (set_query u q) s = Some (set_query u' q) /\ sqf u' = sqf u.
+Proof.
+  intros c u s u' q H. unfold SetUsername, no_host_or_file in *. fields.
+  destruct (match u_host u with Some h => is_nil h | None => true end || str_eqb (u_scheme u) s_file);
+    injection H as <-; split; reflexivity.
+Qed.
+
+Lemma SetPassword_q : forall c u s u' q, SetPassword c u s = Some u' ->
+  SetPassword c (set_query u q) s = Some (set_query u' q) /\ sqf u' = sqf u.
+Proof.
+  intros c u s u' q H. unfold SetPassword, no_host_or_file in *. fields.
+  destruct (match u_host u with Some h => is_nil h | None => true end || str_eqb (u_scheme u) s_file);
+    injection H as <-; split; reflexivity.
+Qed.
+
+Lemma SetHash_empty_InvNQ : forall idna_raw c u u', InvNQ c u -> SetHash idna_raw c u [] = Some u' ->
+  InvNQ c u' /\ sqf u' = sqf u.
+Proof.
+  intros idna_raw c u u' Hi H. unfold SetHash in H.
+  pose proof (Inv_set_fragment_none c _ Hi) as Hi'.
+  destruct (negb (is_some (u_query (set_fragment u None)))).
+  - destruct (strip_opaque_q _ _ None H) as [H1 H2]. split; [|exact H2].
+    apply (Inv_strip_opaque c _ _ Hi' H1).
+  - injection H as <-. split; [exact Hi'|reflexivity].
+Qed.
+
+Section G2.
+  Variable idna_raw : str -> str * bool.
+  Hypothesis HH3 : H3 idna_raw.
+  Variable p : profile.
+  Notation c := (p_cfg p).
+  Hypothesis Hc : cfg_okm c = true.
+  Hypothesis Hnf : c_fail c = false.
+
+  (* the steps, on [InvNQ] *)
+  Lemma nq_host : forall v s v', Inv c v -> SetHostname idna_raw c v s = Some v' -> Inv c v'.
+  Proof. intros v s v'. apply (SetHostname_Inv idna_raw HH3 c Hc Hnf). Qed.
+  Lemma nq_path : forall v s v', Inv c v -> SetPathname idna_raw c v s = Some v' -> Inv c v'.
+  Proof. intros v s v'. apply (SetPathname_Inv idna_raw HH3 c Hc Hnf). Qed.
+  Lemma nq_02 : forall v, Inv c v -> InvNQ c v.
+  Proof. intros v. apply Inv_set_query_none. Qed.
+  Lemma nq_21 : forall v, InvNQ c v -> InvNQ c v.
+  Proof. intros v Hv. exact Hv. Qed.
+  Lemma nq_reenc : forall v l, p_repeated p = true \/ p_sortQuery p <> NoSort ->
+    InvNQ c v -> InvNQ c (sp_update c (fst (ensure_sp c v)) l).
+  Proof. intros v l _ Hv. apply (InvNQ_ext c v); [|exact Hv]. rewrite sp_update_nqf, ensure_sp_nqf. reflexivity. Qed.
+  Lemma nq_search : forall v s v', s <> [] -> InvNQ c v -> SetSearch idna_raw c v s = Some v' -> InvNQ c v'.
+  Proof.
+    intros v s v' Hs Hv E. apply (InvNQ_ext c v); [|exact Hv]. symmetry.
+    apply (SetSearch_keep idna_raw c _ nqf) in E; try reflexivity; try assumption.
+  Qed.
+  Lemma nq_hash : forall v s v', InvNQ c v -> SetHash idna_raw c v s = Some v' -> InvNQ c v'.
+  Proof.
+    intros v s v' Hv E. destruct s as [|x s]; [apply (SetHash_empty_InvNQ idna_raw c v v' Hv E)|].
+    apply (SetHash_q idna_raw c None) in E; [|discriminate].
+    apply (SetHash_Inv idna_raw HH3 c Hc Hnf _ _ _ Hv E).
+  Qed.
+  Lemma nq_port : forall v v', InvNQ c v -> SetPort idna_raw c v [] = Some v' -> InvNQ c v'.
+  Proof.
+    intros v v' Hv E. destruct (SetPort_empty_q idna_raw c v v' None E) as [E1 _].
+    apply (SetPort_empty_Inv idna_raw c _ _ Hv E1).
+  Qed.
+  Lemma nq_user : forall v s v', InvNQ c v -> SetUsername c v s = Some v' -> InvNQ c v'.
+  Proof.
+    intros v s v' Hv E. destruct (SetUsername_q c v s v' None E) as [E1 _]. apply (SetUsername_Inv c _ _ _ Hv E1).
+  Qed.
+  Lemma nq_pass : forall v s v', InvNQ c v -> SetPassword c v s = Some v' -> InvNQ c v'.
+  Proof.
+    intros v s v' Hv E. destruct (SetPassword_q c v s v' None E) as [E1 _]. apply (SetPassword_Inv c _ _ _ Hv E1).
+  Qed.
+
+  Lemma rep_block_InvNQ : forall u u', Inv c u -> rep_block idna_raw p u = Some u' -> InvNQ c u'.
+  Proof.
+    exact (rep_block_P idna_raw p (Inv c) (InvNQ c) (InvNQ c) nq_host nq_path nq_02 nq_21 nq_reenc nq_search nq_hash).
+  Qed.
+
+  Lemma tail_block_InvNQ : forall u u', InvNQ c u -> tail_block idna_raw p u = Some u' -> InvNQ c u'.
+  Proof.
+    exact (tail_block_P idna_raw p (InvNQ c) (InvNQ c) nq_21 nq_reenc nq_hash nq_port nq_user nq_pass).
+  Qed.
+
+  (* G2, first form: every clause of Inv except the one on the query, for every profile *)
+  Theorem Canonicalize_InvNQ_p : forall u u', Inv c u -> Canonicalize idna_raw p u = Some u' -> InvNQ c u'.
+  Proof.
+    exact (Canonicalize_P idna_raw p (Inv c) (InvNQ c) (InvNQ c) nq_host nq_path nq_02 nq_21 nq_reenc nq_search nq_hash
+             nq_port nq_user nq_pass).
+  Qed.
+
+  (* the query: free of the ordinary query set, or (when no write-through happened) of the set of its scheme *)
+  Theorem Canonicalize_Qweak_p : sp_chars_ok (c_querySet c) = true ->
+    forall u u', Inv c u -> Canonicalize idna_raw p u = Some u' -> Qweak c u'.
+  Proof.
+    intros Hq u u' Hi H.
+    apply (Canonicalize_P idna_raw p (Inv c) (fun _ => True) (Qweak c)) with (u := u); try assumption; try (intros; exact I).
+    - intros v s v'. apply (SetHostname_Inv idna_raw HH3 c Hc Hnf).
+    - intros v s v'. apply (SetPathname_Inv idna_raw HH3 c Hc Hnf).
+    - intros v Hv. apply (Inv_InvW c v Hv).
+    - intros v l _ _. apply sp_update_Qweak. exact Hq.
+    - intros v s v' Hv E. apply (Qweak_ext c v); [|exact Hv]. symmetry. destruct s as [|x s].
+      + unfold SetHash in E. destruct (negb (is_some (u_query (set_fragment v None)))).
+        * apply (strip_opaque_q _ _ None) in E. apply E.
+        * injection E as <-. reflexivity.
+      + apply (SetHash_keep idna_raw c _ sqf) in E; try reflexivity; try exact E. discriminate.
+    - intros v v' Hv E. apply (Qweak_ext c v); [|exact Hv]. symmetry. apply (SetPort_empty_q idna_raw c v v' None E).
+    - intros v s v' Hv E. apply (Qweak_ext c v); [|exact Hv]. symmetry. apply (SetUsername_q c v s v' None E).
+    - intros v s v' Hv E. apply (Qweak_ext c v); [|exact Hv]. symmetry. apply (SetPassword_q c v s v' None E).
+  Qed.
+
+  Theorem Canonicalize_InvW_p : sp_chars_ok (c_querySet c) = true ->
+    forall u u', Inv c u -> Canonicalize idna_raw p u = Some u' -> InvW c u'.
+  Proof.
+    intros Hq u u' Hi H. split; [apply (Canonicalize_InvNQ_p u u' Hi H)|apply (Canonicalize_Qweak_p Hq u u' Hi H)].
+  Qed.
+
+  (* G2, full invariant: non-special URLs, or configurations whose special-query set adds nothing *)
+  Theorem Canonicalize_Inv_p : sp_chars_ok (c_querySet c) = true ->
+    forall u u', IsSpecialScheme c u = false \/ sq_sub c ->
+    Inv c u -> Canonicalize idna_raw p u = Some u' -> Inv c u'.
+  Proof.
+    intros Hq u u' Hs Hi H. apply InvW_Inv; [apply (Canonicalize_InvW_p Hq u u' Hi H)|].
+    destruct Hs as [Hs|Hs]; [left|right; exact Hs].
+    unfold IsSpecialScheme in *. rewrite (Canonicalize_scheme idna_raw p u u' H). exact Hs.
+  Qed.
+
+  (* G2, full invariant: profiles that neither sort nor re-encode the parameters *)
+  Theorem Canonicalize_Inv_nosp_p : p_sortQuery p = NoSort -> p_repeated p = false ->
+    forall u u', Inv c u -> Canonicalize idna_raw p u = Some u' -> Inv c u'.
+  Proof.
+    intros Hs Hr u u' Hi H.
+    apply (Canonicalize_P idna_raw p (Inv c) (Inv c) (Inv c)) with (u := u); try assumption; try (intros; assumption).
+    - intros v s v'. apply (SetHostname_Inv idna_raw HH3 c Hc Hnf).
+    - intros v s v'. apply (SetPathname_Inv idna_raw HH3 c Hc Hnf).
+    - intros v l [E|E] _; [rewrite Hr in E; discriminate E|contradiction].
+    - intros v s v' _. apply (SetSearch_Inv idna_raw HH3 c Hc Hnf).
+    - intros v s v'. apply (SetHash_Inv idna_raw HH3 c Hc Hnf).
+    - intros v v'. apply (SetPort_empty_Inv idna_raw c).
+    - intros v s v'. apply (SetUsername_Inv c).
+    - intros v s v'. apply (SetPassword_Inv c).
+  Qed.
+End G2.
+
+(* ----- G2: the statements, closed ----- *)
+
+Theorem Canonicalize_InvNQ : forall idna_raw p u u',
+  H3 idna_raw -> cfg_okm (p_cfg p) = true -> c_fail (p_cfg p) = false ->
+  Inv (p_cfg p) u -> Canonicalize idna_raw p u = Some u' -> InvNQ (p_cfg p) u'.
+Proof. intros idna_raw p u u' HH3 Hc Hnf. apply (Canonicalize_InvNQ_p idna_raw HH3 p Hc Hnf). Qed.
+Print Assumptions Canonicalize_InvNQ.
+
+Theorem Canonicalize_InvW : forall idna_raw p u u',
+  H3 idna_raw -> cfg_okm (p_cfg p) = true -> c_fail (p_cfg p) = false ->
+  sp_chars_ok (c_querySet (p_cfg p)) = true ->
+  Inv (p_cfg p) u -> Canonicalize idna_raw p u = Some u' -> InvW (p_cfg p) u'.
+Proof. intros idna_raw p u u' HH3 Hc Hnf Hq. apply (Canonicalize_InvW_p idna_raw HH3 p Hc Hnf Hq). Qed.
+Print Assumptions Canonicalize_InvW.
+
+Theorem Canonicalize_Inv : forall idna_raw p u u',
+  H3 idna_raw -> cfg_okm (p_cfg p) = true -> c_fail (p_cfg p) = false ->
+  sp_chars_ok (c_querySet (p_cfg p)) = true ->
+  IsSpecialScheme (p_cfg p) u = false \/ sq_sub (p_cfg p) ->
+  Inv (p_cfg p) u -> Canonicalize idna_raw p u = Some u' -> Inv (p_cfg p) u'.
+Proof. intros idna_raw p u u' HH3 Hc Hnf Hq. apply (Canonicalize_Inv_p idna_raw HH3 p Hc Hnf Hq). Qed.
+Print Assumptions Canonicalize_Inv.
+
+Theorem Canonicalize_Inv_nosp : forall idna_raw p u u',
+  H3 idna_raw -> cfg_okm (p_cfg p) = true -> c_fail (p_cfg p) = false ->
+  p_sortQuery p = NoSort -> p_repeated p = false ->
+  Inv (p_cfg p) u -> Canonicalize idna_raw p u = Some u' -> Inv (p_cfg p) u'.
+Proof. intros idna_raw p u u' HH3 Hc Hnf Hs Hr. apply (Canonicalize_Inv_nosp_p idna_raw HH3 p Hc Hnf Hs Hr). Qed.
+Print Assumptions Canonicalize_Inv_nosp.
+
+(* ----- what the profile parser returns comes from a record satisfying Inv ----- *)
+
+Lemma ProfileParse_source : forall idna_raw p x u', H3 idna_raw -> cfg_okm (p_cfg p) = true ->
+  ProfileParse idna_raw p x = CUrl u' -> exists u, Inv (p_cfg p) u /\ Canonicalize idna_raw p u = Some u'.
+Proof.
+  intros idna_raw p x u' HH3 Hc H. unfold ProfileParse, canon_of in H.
+  destruct (parse_retry idna_raw p x) as [u|e| | |] eqn:E; try discriminate H.
+  exists u. split.
+  - unfold parse_retry in E.
+    destruct (Parse idna_raw (p_cfg p) x) as [u0|e0| | |] eqn:E0; try discriminate E.
+    + injection E as <-. apply (Parse_Inv idna_raw HH3 (p_cfg p) Hc x u0 E0).
+    + destruct (e_type e0); try discriminate E.
+      destruct (negb (is_nil (p_defaultScheme p))); [|discriminate E].
+      apply (Parse_Inv idna_raw HH3 (p_cfg p) Hc _ u E).
+  - destruct (Canonicalize idna_raw p u); [injection H as <-; reflexivity|discriminate H].
+Qed.
+
+Lemma ProfileParseRef_source : forall idna_raw p x ref u', H3 idna_raw -> cfg_okm (p_cfg p) = true ->
+  ProfileParseRef idna_raw p x ref = CUrl u' -> exists u, Inv (p_cfg p) u /\ Canonicalize idna_raw p u = Some u'.
+Proof.
+  intros idna_raw p x ref u' HH3 Hc H. unfold ProfileParseRef in H.
+  destruct (parse_retry idna_raw p x) as [b|e| | |] eqn:E; try discriminate H.
+  assert (Hb : Inv (p_cfg p) b).
+  { unfold parse_retry in E.
+    destruct (Parse idna_raw (p_cfg p) x) as [u0|e0| | |] eqn:E0; try discriminate E.
+    + injection E as <-. apply (Parse_Inv idna_raw HH3 (p_cfg p) Hc x u0 E0).
+    + destruct (e_type e0); try discriminate E.
+      destruct (negb (is_nil (p_defaultScheme p))); [|discriminate E].
+      apply (Parse_Inv idna_raw HH3 (p_cfg p) Hc _ b E). }
+  unfold canon_of in H. destruct (UrlParse idna_raw (p_cfg p) b ref) as [u|e| | |] eqn:EU; try discriminate H.
+  exists u. split; [apply (UrlParse_Inv idna_raw HH3 (p_cfg p) Hc b ref u Hb EU)|].
+  destruct (Canonicalize idna_raw p u); [injection H as <-; reflexivity|discriminate H].
+Qed.
+
+(* every URL the profile parser returns, under every profile: InvW *)
+Theorem ProfileParse_InvW : forall idna_raw p x u',
+  H3 idna_raw -> cfg_okm (p_cfg p) = true -> c_fail (p_cfg p) = false ->
+  sp_chars_ok (c_querySet (p_cfg p)) = true ->
+  ProfileParse idna_raw p x = CUrl u' -> InvW (p_cfg p) u'.
+Proof.
+  intros idna_raw p x u' HH3 Hc Hnf Hq H. destruct (ProfileParse_source idna_raw p x u' HH3 Hc H) as [u [Hi E]].
+  apply (Canonicalize_InvW idna_raw p u u' HH3 Hc Hnf Hq Hi E).
+Qed.
+Print Assumptions ProfileParse_InvW.
+
+Theorem ProfileParseRef_InvW : forall idna_raw p x ref u',
+  H3 idna_raw -> cfg_okm (p_cfg p) = true -> c_fail (p_cfg p) = false ->
+  sp_chars_ok (c_querySet (p_cfg p)) = true ->
+  ProfileParseRef idna_raw p x ref = CUrl u' -> InvW (p_cfg p) u'.
+Proof.
+  intros idna_raw p x ref u' HH3 Hc Hnf Hq H.
+  destruct (ProfileParseRef_source idna_raw p x ref u' HH3 Hc H) as [u [Hi E]].
+  apply (Canonicalize_InvW idna_raw p u u' HH3 Hc Hnf Hq Hi E).
+Qed.
+Print Assumptions ProfileParseRef_InvW.
+
+(* the full invariant: the returned URL is not special, or the special-query set adds nothing,
+   or the profile neither sorts nor re-encodes *)
+Definition full_ok (p : profile) (u' : url) : Prop :=
+  (sp_chars_ok (c_querySet (p_cfg p)) = true /\ (IsSpecialScheme (p_cfg p) u' = false \/ sq_sub (p_cfg p))) \/
+  (p_sortQuery p = NoSort /\ p_repeated p = false).
+
+Lemma source_Inv : forall idna_raw p u u',
+  H3 idna_raw -> cfg_okm (p_cfg p) = true -> c_fail (p_cfg p) = false -> full_ok p u' ->
+  Inv (p_cfg p) u -> Canonicalize idna_raw p u = Some u' -> Inv (p_cfg p) u'.
+Proof.
+  intros idna_raw p u u' HH3 Hc Hnf [[Hq Hs]|[Hs Hr]] Hi E.
+  - apply InvW_Inv; [apply (Canonicalize_InvW idna_raw p u u' HH3 Hc Hnf Hq Hi E)|exact Hs].
+  - apply (Canonicalize_Inv_nosp idna_raw p u u' HH3 Hc Hnf Hs Hr Hi E).
+Qed.
+
+Theorem ProfileParse_Inv : forall idna_raw p x u',
+  H3 idna_raw -> cfg_okm (p_cfg p) = true -> c_fail (p_cfg p) = false -> full_ok p u' ->
+  ProfileParse idna_raw p x = CUrl u' -> Inv (p_cfg p) u'.
+Proof.
+  intros idna_raw p x u' HH3 Hc Hnf Hf H. destruct (ProfileParse_source idna_raw p x u' HH3 Hc H) as [u [Hi E]].
+  apply (source_Inv idna_raw p u u' HH3 Hc Hnf Hf Hi E).
+Qed.
+Print Assumptions ProfileParse_Inv.
+
+Theorem ProfileParseRef_Inv : forall idna_raw p x ref u',
+  H3 idna_raw -> cfg_okm (p_cfg p) = true -> c_fail (p_cfg p) = false -> full_ok p u' ->
+  ProfileParseRef idna_raw p x ref = CUrl u' -> Inv (p_cfg p) u'.
+Proof.
+  intros idna_raw p x ref u' HH3 Hc Hnf Hf H.
+  destruct (ProfileParseRef_source idna_raw p x ref u' HH3 Hc H) as [u [Hi E]].
+  apply (source_Inv idna_raw p u u' HH3 Hc Hnf Hf Hi E).
+Qed.
+Print Assumptions ProfileParseRef_Inv.
+
+(* ----- the observable predicates ----- *)
+
+(* the configuration with other query sets (nothing else of it changes) *)
+Definition set_qsets (c : cfg) (ts t : peset) : cfg :=
+  {| c_report := c_report c; c_fail := c_fail c; c_lax := c_lax c; c_collapse := c_collapse c;
+     c_acceptInvalid := c_acceptInvalid c; c_pre := c_pre c; c_post := c_post c; c_singlePct := c_singlePct c;
+     c_allowPathNonBase := c_allowPathNonBase c; c_skipDrive := c_skipDrive c; c_special := c_special c;
+     c_skipTrailSlash := c_skipTrailSlash c; c_latin1 := c_latin1 c; c_pathSet := c_pathSet c;
+     c_squerySet := ts; c_querySet := t; c_sfragSet := c_sfragSet c; c_fragSet := c_fragSet c;
+     c_skipEq := c_skipEq c |}.
+
+(* special URLs use the ordinary query set *)
+Definition relax (c : cfg) : cfg := set_qsets c (c_querySet c) (c_querySet c).
+
+Lemma InvNQ_set_qsets : forall c ts t u, InvNQ c u -> InvNQ (set_qsets c ts t) u.
+Proof.
+  intros c ts t u [H1 H2 H3 H4 H5 H6 H7 H8 H9 H10 H11 H12].
+  constructor; [exact H1|exact H2|exact H3|exact H4|exact H5|exact H6|exact H7|exact H8|exact H9| |exact H11|exact H12].
+  intros q E. discriminate E.
+Qed.
+
+(* the ordinary query set asks for nothing the special-query set does not ask for (the standard's
+   special-query set is the query set plus the apostrophe) *)
+Definition q_sub (c : cfg) : Prop :=
+  forall r, RuneShouldBeEncoded (c_squerySet c) r = false -> RuneShouldBeEncoded (c_querySet c) r = false.
+
+Theorem InvW_relax : forall c u, q_sub c -> InvW c u -> Inv (relax c) u.
+Proof.
+  intros c u Hs [H1 H2]. apply InvNQ_Inv; [apply InvNQ_set_qsets; exact H1|].
+  intros q E. assert (K : none_in (c_querySet c) q = true).
+  { destruct (H2 q E) as [H|H]; [exact H|]. unfold qset in H. destruct (IsSpecialScheme c u); [|exact H].
+    apply (none_in_mono _ _ _ Hs H). }
+  unfold qset, relax, set_qsets. cbn [c_squerySet c_querySet]. destruct (IsSpecialScheme _ u); exact K.
+Qed.
+
+(* C04 on canonicalized URLs: all 16 clauses, clause 10 with the ordinary query set *)
+Theorem InvW_inv_obs : forall c u, cfg_ok c = true -> q_sub c -> InvW c u ->
+  inv_obs (relax c) (obs_url c u) = [].
+Proof.
+  intros c u Hc Hs H. change (obs_url c u) with (obs_url (relax c) u). apply Inv_inv_obs; [|apply InvW_relax; assumption].
+  unfold cfg_ok in *. cbn [relax set_qsets c_pathSet c_squerySet c_querySet c_sfragSet c_fragSet].
+  apply andb_true_iff in Hc; destruct Hc as [Hc H6].
+  apply andb_true_iff in Hc; destruct Hc as [Hc H5].
+  apply andb_true_iff in Hc; destruct Hc as [Hc H4].
+  apply andb_true_iff in Hc; destruct Hc as [Hc H3].
+  apply andb_true_iff in Hc; destruct Hc as [H1 H2].
+  rewrite H1, H3, H4, H5, H6. reflexivity.
+Qed.
+Print Assumptions InvW_inv_obs.
+
+(* C19 on canonicalized URLs: all 8 clauses, no condition *)
+Definition any_set : peset := {| ab := 0; bits := [] |}.
+
+Lemma none_in_any : forall t q, none_in t q = true -> none_in any_set q = true.
+Proof.
+  intros t q. unfold none_in. apply forallb_impl. intros x Hx. apply negb_true_iff in Hx.
+  unfold RuneShouldBeEncoded in *. cbn [ab bits any_set bs_test mem existsb].
+  destruct (126 <? x) eqn:E; [rewrite orb_true_r in Hx; discriminate Hx|].
+  destruct (x <? 0) eqn:E0; [lia|reflexivity].
+Qed.
+
+Theorem InvW_acc_obs : forall c u, InvW c u -> acc_obs c (obs_url c u) = [].
+Proof.
+  intros c u [H1 H2].
+  change (acc_obs c (obs_url c u)) with (acc_obs (set_qsets c any_set any_set) (obs_url (set_qsets c any_set any_set) u)).
+  apply Inv_acc_obs_any. apply InvNQ_Inv; [apply InvNQ_set_qsets; exact H1|].
+  intros q E. unfold qset, set_qsets. cbn [c_squerySet c_querySet].
+  assert (K : none_in any_set q = true) by (destruct (H2 q E) as [H|H]; apply (none_in_any _ _ H)).
+  destruct (IsSpecialScheme _ u); exact K.
+Qed.
+Print Assumptions InvW_acc_obs.
+
+Theorem ProfileParse_obs : forall idna_raw p x u',
+  H3 idna_raw -> cfg_okm (p_cfg p) = true -> c_fail (p_cfg p) = false ->
+  sp_chars_ok (c_querySet (p_cfg p)) = true ->
+  ProfileParse idna_raw p x = CUrl u' ->
+  acc_obs (p_cfg p) (obs_url (p_cfg p) u') = [] /\
+  (q_sub (p_cfg p) -> inv_obs (relax (p_cfg p)) (obs_url (p_cfg p) u') = []) /\
+  (full_ok p u' -> inv_obs (p_cfg p) (obs_url (p_cfg p) u') = []).
+Proof.
+  intros idna_raw p x u' HH3 Hc Hnf Hq H.
+  pose proof (ProfileParse_InvW idna_raw p x u' HH3 Hc Hnf Hq H) as HW.
+  pose proof (cfg_okm_ok (p_cfg p) Hc) as Hok.
+  split; [apply InvW_acc_obs; exact HW|]. split.
+  - intros Hs. apply InvW_inv_obs; assumption.
+  - intros Hf. apply Inv_inv_obs; [exact Hok|]. apply (ProfileParse_Inv idna_raw p x u' HH3 Hc Hnf Hf H).
+Qed.
+Print Assumptions ProfileParse_obs.
+
+Theorem ProfileParseRef_obs : forall idna_raw p x ref u',
+  H3 idna_raw -> cfg_okm (p_cfg p) = true -> c_fail (p_cfg p) = false ->
+  sp_chars_ok (c_querySet (p_cfg p)) = true ->
+  ProfileParseRef idna_raw p x ref = CUrl u' ->
+  acc_obs (p_cfg p) (obs_url (p_cfg p) u') = [] /\
+  (q_sub (p_cfg p) -> inv_obs (relax (p_cfg p)) (obs_url (p_cfg p) u') = []) /\
+  (full_ok p u' -> inv_obs (p_cfg p) (obs_url (p_cfg p) u') = []).
+Proof.
+  intros idna_raw p x ref u' HH3 Hc Hnf Hq H.
+  pose proof (ProfileParseRef_InvW idna_raw p x ref u' HH3 Hc Hnf Hq H) as HW.
+  pose proof (cfg_okm_ok (p_cfg p) Hc) as Hok.
+  split; [apply InvW_acc_obs; exact HW|]. split.
+  - intros Hs. apply InvW_inv_obs; assumption.
+  - intros Hf. apply Inv_inv_obs; [exact Hok|]. apply (ProfileParseRef_Inv idna_raw p x ref u' HH3 Hc Hnf Hf H).
+Qed.
+Print Assumptions ProfileParseRef_obs.
+
+(* ================================================================== *)
+(* Part 2.F  what does NOT hold, and the premises are satisfiable       *)
+(* ================================================================== *)
+
+(* the full invariant after Canonicalize, for every profile: FALSE *)
+Definition Canonicalize_Inv_full : Prop :=
+  forall idna_raw p u u', H3 idna_raw -> cfg_okm (p_cfg p) = true -> c_fail (p_cfg p) = false ->
+    sp_chars_ok (c_querySet (p_cfg p)) = true ->
+    Inv (p_cfg p) u -> Canonicalize idna_raw p u = Some u' -> Inv (p_cfg p) u'.
+
+Definition apos_input : str := [104;116;116;112;58;47;47;104;47;63;97;61;39].    (* http://h/?a=' *)
+Definition apos_href : str := [104;116;116;112;58;47;47;104;47;63;97;61;39].
+
+(* the profile parser returns a URL whose serialization has a raw apostrophe in the query of a special URL:
+   clause 10 of inv_obs fails (parsing "http://h/?a='" again gives "http://h/?a=%27") *)
+Definition breaks_clause10 (p : profile) : Prop :=
+  cfg_okm (p_cfg p) = true /\ c_fail (p_cfg p) = false /\ sp_chars_ok (c_querySet (p_cfg p)) = true /\
+  exists u', ProfileParse idna_toy p apos_input = CUrl u' /\ Href u' false = Some apos_href /\
+             inv_obs (p_cfg p) (obs_url (p_cfg p) u') = [10] /\ ~ Inv (p_cfg p) u'.
+
+Ltac break10 :=
+  split; [vm_compute; reflexivity|]; split; [reflexivity|]; split; [vm_compute; reflexivity|];
+  eexists; split; [vm_compute; reflexivity|]; split; [vm_compute; reflexivity|]; split; [vm_compute; reflexivity|];
+  let H := fresh in intro H; apply inv_b_iff in H; vm_compute in H; discriminate H.
+
+(* sorting by key: the predefined profile WhatWgSortQuery *)
+Theorem ProfileParse_Inv_refuted_sort : breaks_clause10 prof_WhatWgSortQuery.
+Proof. break10. Qed.
+Print Assumptions ProfileParse_Inv_refuted_sort.
+
+(* sorting by parameter *)
+Theorem ProfileParse_Inv_refuted_sort_abs : breaks_clause10 copt_WithSortQuery2.
+Proof. break10. Qed.
+
+(* repeated percent-decoding *)
+Theorem ProfileParse_Inv_refuted_repeated : breaks_clause10 copt_WithRepeatedPercentDecoding.
+Proof. break10. Qed.
+
+Theorem Canonicalize_Inv_refuted : ~ Canonicalize_Inv_full.
+Proof.
+  intro F. destruct ProfileParse_Inv_refuted_sort as [Hc [Hnf [Hq [u' [E [_ [_ N]]]]]]].
+  destruct (ProfileParse_source idna_toy prof_WhatWgSortQuery apos_input u' H3_toy Hc E) as [u [Hi EC]].
+  apply N. apply (F idna_toy prof_WhatWgSortQuery u u' H3_toy Hc Hnf Hq Hi EC).
+Qed.
+Print Assumptions Canonicalize_Inv_refuted.
+
+(* the hypothesis sp_chars_ok is needed for any statement on the query: with '=' in the query set,
+   "sc://h/?a" is sorted to "sc://h/?a=" *)
+Definition cfg_eq : cfg := set_qsets default_cfg (c_squerySet default_cfg) {| ab := 33; bits := [34;35;60;61;62] |}.
+Definition prof_eq : profile :=
+  {| p_cfg := cfg_eq; p_removeUserInfo := false; p_removePort := false; p_removeFragment := false;
+     p_sortQuery := SortKeys; p_repeated := false; p_defaultScheme := [] |}.
+
+Theorem sp_chars_ok_needed :
+  cfg_okm cfg_eq = true /\ c_fail cfg_eq = false /\ sp_chars_ok (c_querySet cfg_eq) = false /\
+  exists u', ProfileParse idna_toy prof_eq [115;99;58;47;47;104;47;63;97] = CUrl u' /\
+             IsSpecialScheme cfg_eq u' = false /\
+             Href u' false = Some [115;99;58;47;47;104;47;63;97;61] /\
+             inv_obs cfg_eq (obs_url cfg_eq u') = [10] /\ ~ Inv cfg_eq u'.
+Proof.
+  split; [vm_compute; reflexivity|]. split; [reflexivity|]. split; [vm_compute; reflexivity|].
+  eexists. split; [vm_compute; reflexivity|]. split; [vm_compute; reflexivity|].
+  split; [vm_compute; reflexivity|]. split; [vm_compute; reflexivity|].
+  intro H. apply inv_b_iff in H. vm_compute in H. discriminate H.
+Qed.
+Print Assumptions sp_chars_ok_needed.
+
+(* ----- examples ----- *)
+
+(* every switch on, standard parser options *)
+Definition prof_all : profile :=
+  {| p_cfg := default_cfg; p_removeUserInfo := true; p_removePort := true; p_removeFragment := true;
+     p_sortQuery := SortKeys; p_repeated := true; p_defaultScheme := [104;116;116;112] |}.
+
+(* "HTTP://User:pw@EX%2541mple.com:8080/a/./b%2541?z=1&a=%2532#fr%2541g" *)
+Definition ex_in1 : str :=
+  [72;84;84;80;58;47;47;85;115;101;114;58;112;119;64;69;88;37;50;53;52;49;109;112;108;101;46;99;111;109;58;56;48;56;48;
+   47;97;47;46;47;98;37;50;53;52;49;63;122;61;49;38;97;61;37;50;53;51;50;35;102;114;37;50;53;52;49;103].
+(* "EX%2541mple.com:8080/a/./b%2541?z=1&a=%2532#fr%2541g" (no scheme) *)
+Definition ex_in2 : str :=
+  [69;88;37;50;53;52;49;109;112;108;101;46;99;111;109;58;56;48;56;48;
+   47;97;47;46;47;98;37;50;53;52;49;63;122;61;49;38;97;61;37;50;53;51;50;35;102;114;37;50;53;52;49;103].
+(* "HTTP://User:pw@EX%41mple.com:8080/a/./b%2541?z=1&a=%2532#fr%2541g" (for the strict host parser) *)
+Definition ex_in4 : str :=
+  [72;84;84;80;58;47;47;85;115;101;114;58;112;119;64;69;88;37;52;49;109;112;108;101;46;99;111;109;58;56;48;56;48;
+   47;97;47;46;47;98;37;50;53;52;49;63;122;61;49;38;97;61;37;50;53;51;50;35;102;114;37;50;53;52;49;103].
+(* "sc://u:p@h:8/p?b=2&a='#f" *)
+Definition ex_in3 : str := [115;99;58;47;47;117;58;112;64;104;58;56;47;112;63;98;61;50;38;97;61;39;35;102].
+
+(* G1: the two predefined canonicalization profiles (lax host parsing, host functions, every step) *)
+Example Canonicalize_total_ex :
+  exists u u', Parse idna_toy (p_cfg prof_Semantic) ex_in1 = PUrl u /\ wf u /\
+    Canonicalize idna_toy prof_Semantic u = Some u' /\ wf u' /\
+    (* http://example.com:8080/a/bA?a=2&z=1 *)
+    Href u' false = Some [104;116;116;112;58;47;47;101;120;97;109;112;108;101;46;99;111;109;58;56;48;56;48;
+                          47;97;47;98;65;63;97;61;50;38;122;61;49].
+Proof.
+  eexists. eexists. split; [vm_compute; reflexivity|]. split; [unfold wf; cbn; discriminate|].
+  split; [vm_compute; reflexivity|]. split; [unfold wf; cbn; discriminate|]. vm_compute. reflexivity.
+Qed.
+
+Example ProfileParse_total_ex :
+  (* the scheme-less input is retried with the default scheme: http://example.com/a/bA?z=1&a=2 *)
+  (exists u', ProfileParse idna_toy prof_GoogleSafeBrowsing ex_in2 = CUrl u' /\
+     Href u' false = Some [104;116;116;112;58;47;47;101;120;97;109;112;108;101;46;99;111;109;
+                           47;97;47;98;65;63;122;61;49;38;97;61;50]) /\
+  (* an error, not a panic: "http://[::1" *)
+  (exists e, ProfileParse idna_toy prof_GoogleSafeBrowsing [104;116;116;112;58;47;47;91;58;58;49] = CErr e) /\
+  (* with a reference: http://example.com:8080/c?q=A *)
+  (exists u', ProfileParseRef idna_toy prof_Semantic ex_in1 [46;46;47;99;63;113;61;37;50;53;52;49;35;122;122] = CUrl u' /\
+     Href u' false = Some [104;116;116;112;58;47;47;101;120;97;109;112;108;101;46;99;111;109;58;56;48;56;48;
+                           47;99;63;113;61;65]).
+Proof.
+  split; [eexists; split; vm_compute; reflexivity|].
+  split; [eexists; vm_compute; reflexivity|].
+  eexists; split; vm_compute; reflexivity.
+Qed.
+
+Lemma q_sub_default : q_sub default_cfg.
+Proof.
+  intros r H. unfold RuneShouldBeEncoded, bs_test, mem in *.
+  cbn [default_cfg c_squerySet c_querySet ab bits existsb] in *.
+  destruct (r <? 33), (126 <? r), (r =? 34), (r =? 35), (r =? 39), (r =? 60), (r =? 62); cbn in *; congruence.
+Qed.
+
+Lemma sq_sub_relax : forall c, sq_sub (relax c).
+Proof. intros c r H. exact H. Qed.
+
+(* G2: the premises hold for the toy oracle and the standard options with every switch on;
+   a non-special URL keeps Inv; a special one keeps InvW, and Inv under [relax] *)
+Example Canonicalize_Inv_ex :
+  H3 idna_toy /\ cfg_okm (p_cfg prof_all) = true /\ c_fail (p_cfg prof_all) = false /\
+  sp_chars_ok (c_querySet (p_cfg prof_all)) = true /\ q_sub (p_cfg prof_all) /\
+  (exists u', ProfileParse idna_toy prof_all ex_in3 = CUrl u' /\ full_ok prof_all u' /\ Inv default_cfg u' /\
+     (* sc://h/p?a='&b=2 *)
+     Href u' false = Some [115;99;58;47;47;104;47;112;63;97;61;39;38;98;61;50]) /\
+  (exists u', ProfileParse idna_toy prof_all ex_in4 = CUrl u' /\ InvW default_cfg u' /\ Inv (relax default_cfg) u' /\
+     (* http://example.com/a/bA?a=2&z=1 *)
+     Href u' false = Some [104;116;116;112;58;47;47;101;120;97;109;112;108;101;46;99;111;109;
+                           47;97;47;98;65;63;97;61;50;38;122;61;49]).
+Proof.
+  split; [exact H3_toy|]. split; [vm_compute; reflexivity|]. split; [reflexivity|].
+  split; [vm_compute; reflexivity|]. split; [exact q_sub_default|]. split.
+  - eexists. split; [vm_compute; reflexivity|]. split; [left; split; [vm_compute; reflexivity|left; vm_compute; reflexivity]|].
+    split; [apply inv_b_sound; vm_compute; reflexivity|vm_compute; reflexivity].
+  - assert (E : exists u', ProfileParse idna_toy prof_all ex_in4 = CUrl u' /\
+       Href u' false = Some [104;116;116;112;58;47;47;101;120;97;109;112;108;101;46;99;111;109;
+                             47;97;47;98;65;63;97;61;50;38;122;61;49]).
+    { eexists. split; vm_compute; reflexivity. }
+    destruct E as [u' [E1 E2]]. exists u'. split; [exact E1|].
+    assert (HW : InvW default_cfg u').
+    { apply (ProfileParse_InvW idna_toy prof_all ex_in4 u' H3_toy);
+        [vm_compute; reflexivity|reflexivity|vm_compute; reflexivity|exact E1]. }
+    split; [exact HW|]. split; [apply InvW_relax; [exact q_sub_default|exact HW]|exact E2].
+Qed.
+
+(* a configuration whose special-query set adds nothing: the apostrophe example keeps Inv *)
+Definition prof_relax_sort : profile :=
+  {| p_cfg := relax default_cfg; p_removeUserInfo := false; p_removePort := false; p_removeFragment := false;
+     p_sortQuery := SortKeys; p_repeated := true; p_defaultScheme := [] |}.
+
+Example Canonicalize_Inv_sq_sub_ex :
+  cfg_okm (p_cfg prof_relax_sort) = true /\ sp_chars_ok (c_querySet (p_cfg prof_relax_sort)) = true /\
+  sq_sub (p_cfg prof_relax_sort) /\
+  exists u', ProfileParse idna_toy prof_relax_sort apos_input = CUrl u' /\ Href u' false = Some apos_href /\
+             Inv (p_cfg prof_relax_sort) u'.
+Proof.
+  split; [vm_compute; reflexivity|]. split; [vm_compute; reflexivity|]. split; [apply sq_sub_relax|].
+  assert (E : exists u', ProfileParse idna_toy prof_relax_sort apos_input = CUrl u' /\ Href u' false = Some apos_href).
+  { eexists. split; vm_compute; reflexivity. }
+  destruct E as [u' [E1 E2]]. exists u'. split; [exact E1|]. split; [exact E2|].
+  apply (ProfileParse_Inv idna_toy prof_relax_sort apos_input u' H3_toy);
+    [vm_compute; reflexivity|reflexivity| |exact E1].
+  left. split; [vm_compute; reflexivity|right; apply sq_sub_relax].
+Qed.
+
+(* profiles without sort / repeated decoding: the predefined WhatWg profile and the three removal options *)
+Example Canonicalize_Inv_nosp_ex :
+  (p_sortQuery copt_WithRemoveUserInfo = NoSort /\ p_repeated copt_WithRemoveUserInfo = false) /\
+  exists u', ProfileParse idna_toy copt_WithRemoveUserInfo ex_in4 = CUrl u' /\ Inv default_cfg u'.
+Proof.
+  split; [split; reflexivity|].
+  assert (E : exists u', ProfileParse idna_toy copt_WithRemoveUserInfo ex_in4 = CUrl u').
+  { eexists. vm_compute. reflexivity. }
+  destruct E as [u' E]. exists u'. split; [exact E|].
+  apply (ProfileParse_Inv idna_toy copt_WithRemoveUserInfo ex_in4 u' H3_toy);
+    [vm_compute; reflexivity|reflexivity| |exact E].
+  right. split; reflexivity.
+Qed.
+
+(* ================================================================== *)
+(* Part 3 (G3)  the removal switches do what they say                   *)
+(* ================================================================== *)
+
+Lemma no_host_or_file_true : forall u, no_host_or_file u = true ->
+  u_host u = None \/ u_host u = Some [] \/ str_eqb (u_scheme u) s_file = true.
+Proof.
+  intros u H. unfold no_host_or_file in H. apply orb_true_iff in H. destruct H as [H|H]; [|auto].
+  destruct (u_host u) as [[|x h]|]; auto. discriminate H.
+Qed.
+
+Lemma InvNQ_nocred : forall c u, InvNQ c u -> no_host_or_file u = true ->
+  u_username u = [] /\ u_password u = [] /\ u_port u = None.
+Proof. intros c u H Hn. apply (I_nocred _ _ H). apply (no_host_or_file_true u Hn). Qed.
+
+Lemma PercentEncodeString_nil : forall c t, PercentEncodeString c [] t = [].
+Proof. intros c t. reflexivity. Qed.
+
+Lemma strip_opaque_fields : forall u u', strip_opaque u = Some u' ->
+  u_username u' = u_username u /\ u_password u' = u_password u /\ u_port u' = u_port u /\ u_fragment u' = u_fragment u.
+Proof.
+  intros u u' H. unfold strip_opaque in H. destruct (u_opaque u); [|injection H as <-; repeat split].
+  destruct (u_path u); [discriminate H|]. injection H as <-. repeat split.
+Qed.
+
+Lemma SetHash_empty_fields : forall idna_raw c u u', SetHash idna_raw c u [] = Some u' ->
+  u_username u' = u_username u /\ u_password u' = u_password u /\ u_port u' = u_port u /\ u_fragment u' = None.
+Proof.
+  intros idna_raw c u u' H. unfold SetHash in H. destruct (negb (is_some (u_query (set_fragment u None)))).
+  - apply strip_opaque_fields in H. exact H.
+  - injection H as <-. repeat split.
+Qed.
+
+Lemma SetUsername_fields : forall c u s u', SetUsername c u s = Some u' ->
+  u_password u' = u_password u /\ u_port u' = u_port u /\ u_fragment u' = u_fragment u.
+Proof. intros c u s u' H. unfold SetUsername in H. destruct (no_host_or_file u); injection H as <-; repeat split. Qed.
+
+Lemma SetPassword_fields : forall c u s u', SetPassword c u s = Some u' ->
+  u_username u' = u_username u /\ u_port u' = u_port u /\ u_fragment u' = u_fragment u.
+Proof. intros c u s u' H. unfold SetPassword in H. destruct (no_host_or_file u); injection H as <-; repeat split. Qed.
+
+Lemma SetPort_empty_fields : forall idna_raw c u u', SetPort idna_raw c u [] = Some u' ->
+  u_username u' = u_username u /\ u_password u' = u_password u /\ u_fragment u' = u_fragment u.
+Proof. intros idna_raw c u u' H. unfold SetPort in H. destruct (no_host_or_file u); injection H as <-; repeat split. Qed.
+
+Lemma sort_block_fields : forall p u,
+  u_username (sort_block p u) = u_username u /\ u_password (sort_block p u) = u_password u /\
+  u_port (sort_block p u) = u_port u /\ u_fragment (sort_block p u) = u_fragment u.
+Proof.
+  intros p u. assert (E : nqf (sort_block p u) = nqf u).
+  { unfold sort_block. destruct (p_sortQuery p); [reflexivity| |]; rewrite sp_update_nqf, ensure_sp_nqf; reflexivity. }
+  unfold nqf in E. injection E as E1 E2 E3 E4 E5 E6 E7 E8 E9. repeat split; assumption.
+Qed.
+
+(* on a record satisfying (the query-free part of) the invariant *)
+Lemma SetPort_empty_port : forall idna_raw c u u', InvNQ c u -> SetPort idna_raw c u [] = Some u' -> u_port u' = None.
+Proof.
+  intros idna_raw c u u' Hi H. unfold SetPort in H. destruct (no_host_or_file u) eqn:Hn.
+  - injection H as <-. apply (InvNQ_nocred c u Hi Hn).
+  - injection H as <-. reflexivity.
+Qed.
+
+Lemma SetUsername_empty_user : forall c u u', InvNQ c u -> SetUsername c u [] = Some u' -> u_username u' = [].
+Proof.
+  intros c u u' Hi H. unfold SetUsername in H. destruct (no_host_or_file u) eqn:Hn.
+  - injection H as <-. apply (InvNQ_nocred c u Hi Hn).
+  - injection H as <-. reflexivity.
+Qed.
+
+Lemma SetPassword_empty_pass : forall c u u', InvNQ c u -> SetPassword c u [] = Some u' -> u_password u' = [].
+Proof.
+  intros c u u' Hi H. unfold SetPassword in H. destruct (no_host_or_file u) eqn:Hn.
+  - injection H as <-. apply (InvNQ_nocred c u Hi Hn).
+  - injection H as <-. reflexivity.
+Qed.
+
+(* the fragment: for every record on which Canonicalize returns, whatever the configuration *)
+Theorem removeFragment_spec : forall idna_raw p u u',
+  p_removeFragment p = true -> Canonicalize idna_raw p u = Some u' -> u_fragment u' = None /\ Hash u' = [].
+Proof.
+  intros idna_raw p u u' Hrf H. assert (K : u_fragment u' = None); [|split; [exact K|unfold Hash; rewrite K; reflexivity]].
+  rewrite Canonicalize_blocks in H. apply bind_Some in H. destruct H as (u1 & _ & H). unfold tail_block in H.
+  apply bind_Some in H. destruct H as (u2 & _ & H).
+  apply bind_Some in H. destruct H as (u3 & _ & H).
+  apply bind_Some in H. destruct H as (u4 & E4 & H). rewrite Hrf in E4.
+  injection H as <-. destruct (sort_block_fields p u4) as [_ [_ [_ ->]]].
+  apply (SetHash_empty_fields idna_raw (p_cfg p) u3 u4 E4).
+Qed.
+Print Assumptions removeFragment_spec.
+
+Section G3.
+  Variable idna_raw : str -> str * bool.
+  Hypothesis HH3 : H3 idna_raw.
+  Variable p : profile.
+  Notation c := (p_cfg p).
+  Hypothesis Hc : cfg_okm c = true.
+  Hypothesis Hnf : c_fail c = false.
+
+  Theorem removePort_spec_p : forall u u', Inv c u -> p_removePort p = true ->
+    Canonicalize idna_raw p u = Some u' -> u_port u' = None /\ Port u' = [].
+  Proof.
+    intros u u' Hi Hrp H. assert (K : u_port u' = None); [|split; [exact K|unfold Port; rewrite K; reflexivity]].
+    rewrite Canonicalize_blocks in H. apply bind_Some in H. destruct H as (u1 & E1 & H).
+    pose proof (rep_block_InvNQ idna_raw HH3 p Hc Hnf u u1 Hi E1) as H1. unfold tail_block in H.
+    apply bind_Some in H. destruct H as (u2 & E2 & H). rewrite Hrp in E2.
+    pose proof (SetPort_empty_port idna_raw c u1 u2 H1 E2) as P2.
+    apply bind_Some in H. destruct H as (u3 & E3 & H).
+    assert (P3 : u_port u3 = None).
+    { destruct (p_removeUserInfo p); [|injection E3 as <-; exact P2].
+      apply bind_Some in E3. destruct E3 as (u2a & Ea & Eb).
+      destruct (SetUsername_fields c _ _ _ Ea) as [_ [Q1 _]]. destruct (SetPassword_fields c _ _ _ Eb) as [_ [Q2 _]].
+      congruence. }
+    apply bind_Some in H. destruct H as (u4 & E4 & H).
+    assert (P4 : u_port u4 = None).
+    { destruct (p_removeFragment p); [|injection E4 as <-; exact P3].
+      destruct (SetHash_empty_fields idna_raw c _ _ E4) as [_ [_ [Q _]]]. congruence. }
+    injection H as <-. destruct (sort_block_fields p u4) as [_ [_ [-> _]]]. exact P4.
+  Qed.
+
+  Theorem removeUserInfo_spec_p : forall u u', Inv c u -> p_removeUserInfo p = true ->
+    Canonicalize idna_raw p u = Some u' -> Username u' = [] /\ Password u' = [].
+  Proof.
+    intros u u' Hi Hru H. unfold Username, Password.
+    rewrite Canonicalize_blocks in H. apply bind_Some in H. destruct H as (u1 & E1 & H).
+    pose proof (rep_block_InvNQ idna_raw HH3 p Hc Hnf u u1 Hi E1) as H1. unfold tail_block in H.
+    apply bind_Some in H. destruct H as (u2 & E2 & H).
+    assert (H2 : InvNQ c u2).
+    { destruct (p_removePort p); [apply (nq_port idna_raw p u1 u2 H1 E2)|injection E2 as <-; exact H1]. }
+    apply bind_Some in H. destruct H as (u3 & E3 & H). rewrite Hru in E3.
+    apply bind_Some in E3. destruct E3 as (u2a & Ea & Eb).
+    pose proof (SetUsername_empty_user c u2 u2a H2 Ea) as Ua.
+    pose proof (nq_user p u2 [] u2a H2 Ea) as H2a.
+    pose proof (SetPassword_empty_pass c u2a u3 H2a Eb) as Pb.
+    destruct (SetPassword_fields c _ _ _ Eb) as [Ub _].
+    apply bind_Some in H. destruct H as (u4 & E4 & H).
+    assert (P4 : u_username u4 = [] /\ u_password u4 = []).
+    { destruct (p_removeFragment p); [|injection E4 as <-; split; congruence].
+      destruct (SetHash_empty_fields idna_raw c _ _ E4) as [Q1 [Q2 _]]. split; congruence. }
+    injection H as <-. destruct (sort_block_fields p u4) as [-> [-> _]]. exact P4.
+  Qed.
+End G3.
+
+Theorem removePort_spec : forall idna_raw p u u',
+  H3 idna_raw -> cfg_okm (p_cfg p) = true -> c_fail (p_cfg p) = false ->
+  Inv (p_cfg p) u -> p_removePort p = true ->
+  Canonicalize idna_raw p u = Some u' -> u_port u' = None /\ Port u' = [].
+Proof. intros idna_raw p u u' HH3 Hc Hnf. apply (removePort_spec_p idna_raw HH3 p Hc Hnf). Qed.
+Print Assumptions removePort_spec.
+
+Theorem removeUserInfo_spec : forall idna_raw p u u',
+  H3 idna_raw -> cfg_okm (p_cfg p) = true -> c_fail (p_cfg p) = false ->
+  Inv (p_cfg p) u -> p_removeUserInfo p = true ->
+  Canonicalize idna_raw p u = Some u' -> Username u' = [] /\ Password u' = [].
+Proof. intros idna_raw p u u' HH3 Hc Hnf. apply (removeUserInfo_spec_p idna_raw HH3 p Hc Hnf). Qed.
+Print Assumptions removeUserInfo_spec.
+
+(* for what the profile parser returns *)
+Theorem ProfileParse_removals : forall idna_raw p x u',
+  H3 idna_raw -> cfg_okm (p_cfg p) = true -> c_fail (p_cfg p) = false ->
+  ProfileParse idna_raw p x = CUrl u' ->
+  (p_removeUserInfo p = true -> Username u' = [] /\ Password u' = []) /\
+  (p_removePort p = true -> Port u' = []) /\
+  (p_removeFragment p = true -> Hash u' = []).
+Proof.
+  intros idna_raw p x u' HH3 Hc Hnf H. destruct (ProfileParse_source idna_raw p x u' HH3 Hc H) as [u [Hi E]].
+  split; [|split].
+  - intro Hr. apply (removeUserInfo_spec idna_raw p u u' HH3 Hc Hnf Hi Hr E).
+  - intro Hr. apply (removePort_spec idna_raw p u u' HH3 Hc Hnf Hi Hr E).
+  - intro Hr. apply (removeFragment_spec idna_raw p u u' Hr E).
+Qed.
+Print Assumptions ProfileParse_removals.
+
+Theorem ProfileParseRef_removals : forall idna_raw p x ref u',
+  H3 idna_raw -> cfg_okm (p_cfg p) = true -> c_fail (p_cfg p) = false ->
+  ProfileParseRef idna_raw p x ref = CUrl u' ->
+  (p_removeUserInfo p = true -> Username u' = [] /\ Password u' = []) /\
+  (p_removePort p = true -> Port u' = []) /\
+  (p_removeFragment p = true -> Hash u' = []).
+Proof.
+  intros idna_raw p x ref u' HH3 Hc Hnf H.
+  destruct (ProfileParseRef_source idna_raw p x ref u' HH3 Hc H) as [u [Hi E]].
+  split; [|split].
+  - intro Hr. apply (removeUserInfo_spec idna_raw p u u' HH3 Hc Hnf Hi Hr E).
+  - intro Hr. apply (removePort_spec idna_raw p u u' HH3 Hc Hnf Hi Hr E).
+  - intro Hr. apply (removeFragment_spec idna_raw p u u' Hr E).
+Qed.
+Print Assumptions ProfileParseRef_removals.
+
+(* With [wf u] alone (the statement asked for) the port and user-info statements are FALSE: the setters
+   refuse to touch a record without a host, so a hand-made record that has credentials or a port but no
+   host (no parse and no setter produces one - it violates clause I_nocred of Inv) keeps them. *)
+Definition removePort_wf_full : Prop :=
+  forall idna_raw p u u', wf u -> p_removePort p = true -> Canonicalize idna_raw p u = Some u' -> Port u' = [].
+Definition removeUserInfo_wf_full : Prop :=
+  forall idna_raw p u u', wf u -> p_removeUserInfo p = true -> Canonicalize idna_raw p u = Some u' ->
+    Username u' = [] /\ Password u' = [].
+
+Definition bad_port : url := set_port (set_path (empty_url []) [[]] false) (Some [56]) 8.
+Definition bad_user : url := set_password (set_username (set_path (empty_url []) [[]] false) [117]) [112].
+
+Theorem removePort_wf_refuted :
+  exists p u u', wf u /\ p_removePort p = true /\ Canonicalize idna_toy p u = Some u' /\ Port u' = [56].
+Proof.
+  exists copt_WithRemovePort, bad_port. eexists. split; [unfold wf; cbn; discriminate|]. split; [reflexivity|].
+  split; vm_compute; reflexivity.
+Qed.
+Print Assumptions removePort_wf_refuted.
+
+Theorem removeUserInfo_wf_refuted :
+  exists p u u', wf u /\ p_removeUserInfo p = true /\ Canonicalize idna_toy p u = Some u' /\
+                 Username u' = [117] /\ Password u' = [112].
+Proof.
+  exists copt_WithRemoveUserInfo, bad_user. eexists. split; [unfold wf; cbn; discriminate|]. split; [reflexivity|].
+  split; [vm_compute; reflexivity|]. split; vm_compute; reflexivity.
+Qed.
+Print Assumptions removeUserInfo_wf_refuted.
+
+Theorem removePort_wf_false : ~ removePort_wf_full.
+Proof.
+  intro F. destruct removePort_wf_refuted as (p & u & u' & Hw & Hr & E & N).
+  rewrite (F idna_toy p u u' Hw Hr E) in N. discriminate N.
+Qed.
+
+Theorem removeUserInfo_wf_false : ~ removeUserInfo_wf_full.
+Proof.
+  intro F. destruct removeUserInfo_wf_refuted as (p & u & u' & Hw & Hr & E & N & _).
+  destruct (F idna_toy p u u' Hw Hr E) as [N' _]. rewrite N' in N. discriminate N.
+Qed.
+
+(* the three removals on a concrete run: every switch on, standard options *)
+Example removals_ex :
+  exists u', ProfileParse idna_toy prof_all ex_in4 = CUrl u' /\
+    Username u' = [] /\ Password u' = [] /\ Port u' = [] /\ Hash u' = [] /\
+    (* http://example.com/a/bA?a=2&z=1 *)
+    Href u' false = Some [104;116;116;112;58;47;47;101;120;97;109;112;108;101;46;99;111;109;
+                          47;97;47;98;65;63;97;61;50;38;122;61;49].
+Proof. eexists. split; [vm_compute; reflexivity|]. repeat split; vm_compute; reflexivity. Qed.
+
+(* and through the theorem (premises: toy oracle, standard options) *)
+Example removals_premises_ex :
+  H3 idna_toy /\ cfg_okm (p_cfg prof_all) = true /\ c_fail (p_cfg prof_all) = false /\
+  p_removeUserInfo prof_all = true /\ p_removePort prof_all = true /\ p_removeFragment prof_all = true.
+Proof. split; [exact H3_toy|]. split; [vm_compute; reflexivity|]. repeat split. Qed.
